@@ -59,12 +59,41 @@ def snap(obj):
         return (type(obj).__name__, tuple(snap(v) for v in obj))
     if isinstance(obj, (int, float, str, bool, type(None), np.generic)):
         return ("atom", repr(obj))
-    if hasattr(obj, "points") and hasattr(obj, "weights") and not inspect.isgenerator(getattr(obj, "points", None)):
+    if callable(obj) and not hasattr(obj, "__dict__"):
+        return ("opaque", type(obj).__name__)
+    # library objects handed in by the caller (grids, transforms, weight schemes): every array, list, number or nested
+    # library object they hold.  Attributes that are None are lazily filled caches or set-once parameters (the neighbour
+    # tree, the harmonic basis, an inferred scale b): they are not part of the caller's data and are skipped.
+    if _depth[0] < 4 and hasattr(obj, "__dict__") and type(obj).__module__.startswith("grid."):
+        _depth[0] += 1
         try:
-            return ("grid", snap(np.asarray(obj.points)), snap(np.asarray(obj.weights)))
-        except Exception:
-            return ("opaque", type(obj).__name__)
+            items = {}
+            for k, v in vars(obj).items():
+                if v is None or k in ("_kdtree",):
+                    continue
+                if isinstance(v, (np.ndarray, list, tuple, dict, int, float, str, bool, np.generic)) or type(v).__module__.startswith("grid."):
+                    items[k] = snap(v)
+            return ("obj", type(obj).__name__, items)
+        finally:
+            _depth[0] -= 1
     return ("opaque", type(obj).__name__)
+
+
+_depth = [0]
+
+
+def differs(before, after):
+    """True when ``after`` shows a change of something present in ``before`` (attributes that were None before, i.e.
+    absent from the snapshot, may appear)."""
+    if isinstance(before, tuple) and before and before[0] == "obj":
+        if not (isinstance(after, tuple) and after[:2] == before[:2]):
+            return True
+        return any(k not in after[2] or differs(v, after[2][k]) for k, v in before[2].items())
+    if isinstance(before, tuple) and before and before[0] in ("list", "tuple") and isinstance(after, tuple) and after[:1] == before[:1]:
+        return len(before[1]) != len(after[1]) or any(differs(x, y) for x, y in zip(before[1], after[1]))
+    if isinstance(before, tuple) and before and before[0] == "dict" and isinstance(after, tuple) and after[:1] == ("dict",):
+        return len(before[1]) != len(after[1]) or any(kb != ka or differs(vb, va) for (kb, vb), (ka, va) in zip(before[1], after[1]))
+    return before != after
 
 
 def set_readonly(obj):
@@ -451,6 +480,41 @@ def catalogue():
 
             shutil.rmtree(d, ignore_errors=True)
 
+    # ---- inputs that are VIEWS of other inputs ("inputs may be ... shared"): the result equals the one for copies
+    def vargs():
+        p = rngf().uniform(-1, 1, (9, 3))
+        return {"points": p, "weights": rngf().uniform(0.1, 1, 9), "f": np.cos(p[:, 0]) + 2.0}
+
+    def both(fn):
+        def call(a):
+            pts, w, f = a["points"], a["weights"], a["f"]
+            got = observe(fn(pts, w, f, lambda x: x))
+            want = observe(fn(pts.copy(), w.copy(), f.copy(), lambda x: np.array(x, copy=True)))
+            if not same_obs(got, want):
+                raise AssertionError("result with arguments that are views of each other differs from the result with copies")
+            return got
+        return call
+
+    from grid.becke import BeckeWeights as _BW
+    from grid.coulomb import coulomb_potential as _cp
+
+    add("view:moments(centers=points[:2])", ["Grid.moments"], vargs,
+        both(lambda p, w, f, v: Grid(p, w).moments(2, v(p[:2]), f, "pure")))
+    add("view:get_localgrid(center=points[3])", ["Grid.get_localgrid"], vargs,
+        both(lambda p, w, f, v: Grid(p, w).get_localgrid(v(p[3]), 0.8)))
+    add("view:integrate(weights as values)", ["Grid.integrate"], vargs,
+        both(lambda p, w, f, v: Grid(p, w).integrate(v(w), f, v(f))))
+    add("view:BeckeWeights(atcoords=points[:3])", ["BeckeWeights.generate_weights"], vargs,
+        both(lambda p, w, f, v: _BW().generate_weights(p, v(p[:3]), np.array([1, 6, 8]), select=1)))
+    add("view:coulomb_potential(centers=points[::4], coeffs=weights[:3])", ["coulomb_potential"], vargs,
+        both(lambda p, w, f, v: _cp(p, v(p[::4]), v(w[:3]), v(f[:3]))))
+    add("view:Grid(points.T.T, weights[::-1][::-1])", ["Grid"], vargs,
+        both(lambda p, w, f, v: Grid(v(p.T).T if v(p) is p else p.copy(), w).get_localgrid(np.zeros(3), 1.0)))
+    add("view:convert_cart_to_sph(center=points[0])", ["convert_cart_to_sph"], vargs,
+        both(lambda p, w, f, v: ut.convert_cart_to_sph(p, v(p[0]))))
+    add("view:AtomGrid(center=row of an array).interpolate(points of the grid)", ["AtomGrid.interpolate"], vargs,
+        both(lambda p, w, f, v: (lambda g: g.interpolate(np.exp(-np.sum((g.points - g.center) ** 2, axis=1)))(v(g.points[:5])))(AtomGrid(_rgrid(8), degrees=[5], center=v(p[0])))))
+
     add("UniformGrid.generate_cube/from_cube/save", ["UniformGrid.generate_cube", "UniformGrid.from_cube", "Grid.save", "_HyperRectangleGrid"], cube_args, write_cube)
     return S
 
@@ -541,7 +605,7 @@ def run_spec(spec, pattern, res, prior=None, args=None):
                 return None, args
             after = {k: snap(v) for k, v in args.items() if not isinstance(v, Callback)}
             res.nontrivial()
-            changed = [k for k in before if before[k] != after[k]]
+            changed = [k for k in before if differs(before[k], after[k])]
             if changed:
                 res.violation(f"{spec.name}:argument-modified:{'+'.join(sorted(changed))}",
                               f"{spec.name} ({pattern}) modified its argument(s) {sorted(changed)}", case)
@@ -859,7 +923,7 @@ def _raise_job(arg):
         msg = str(raised)
         if pattern == "readonly" and ("read-only" in msg or "readonly" in msg or "not writeable" in msg):
             res.violation(f"{name}:readonly:read-only-error", f"{name} tried to write into a read-only argument before failing: {msg[:160]}", case)
-    changed = [k for k in before if before[k] != after[k]]
+    changed = [k for k in before if differs(before[k], after[k])]
     if changed:
         res.violation(f"{name}:argument-modified-before-raising:{'+'.join(sorted(changed))}",
                       f"{name} ({pattern}) {'raised ' + type(raised).__name__ if raised is not None else 'returned'} and left its "
